@@ -245,7 +245,7 @@ def run_many(metas, names, jobs=12, timeout_s=600, mem_gb=12, progress=None, per
     return out
 
 
-def playback(harness_pretty, timeout_s=900):
+def playback(harness_pretty, timeout_s=900, features=()):
     """Ask Kani for concrete-playback unit tests for a failing harness, run them natively
     (dev profile, real powf/sort, no stubs) in a scratch copy of the harness crate, and report
     whether a failure reproduces. Returns (reproduced: bool|None, test_source, log)."""
@@ -257,6 +257,10 @@ def playback(harness_pretty, timeout_s=900):
     cmd = ["cargo", "kani", "--target-dir", tdir, "-Z", "stubbing", "-Z", "concrete-playback",
            "--concrete-playback=print", "--no-overflow-checks", "--no-assertion-reach-checks",
            "--harness", harness_pretty, "--exact"]
+    feat = ["--features", ",".join(features)] if features else []
+    cmd += feat
+    tdir = tdir + ("_" + "_".join(features) if features else "")
+    cmd[cmd.index("--target-dir") + 1] = tdir
     try:
         p = _run(cmd, cwd=scratch, timeout=timeout_s)
     except subprocess.TimeoutExpired:
@@ -271,7 +275,7 @@ def playback(harness_pretty, timeout_s=900):
     with open(mfile, "a") as fh:
         fh.write("\n#[cfg(test)]\nmod verif_playback {\n    use super::*;\n" + src + "\n}\n")
     try:
-        q = _run(["cargo", "kani", "playback", "-Z", "concrete-playback", "--", "verif_playback"], cwd=scratch, timeout=timeout_s)
+        q = _run(["cargo", "kani", "playback", "-Z", "concrete-playback"] + feat + ["--", "verif_playback"], cwd=scratch, timeout=timeout_s)
     except subprocess.TimeoutExpired:
         return None, src, "native playback timed out"
     finally:
